@@ -87,6 +87,8 @@ func (o op) coq() string {
 		return "(KWaitAbove " + vx.Nat(o.A) + ")"
 	case "SetFlag":
 		return "(KSetFlagLocked " + vx.Bool(o.A != 0) + ")"
+	case "Size":
+		return "KSize"
 	}
 	panic("op " + o.K)
 }
@@ -102,6 +104,10 @@ type scenario struct {
 	Balanced bool `json:"balanced"`
 	// Debug: the case ran with debug.SetEnabled(true) (part of the failing input)
 	Debug bool `json:"debug,omitempty"`
+	// Events (kinds stkh / cnth, hold.go): e < n arrival of thread e, n <= e < 2n arm a hold for callback slot e-n,
+	// 2n <= e open the gate of slot e-2n; Held = callbacks that were actually held
+	Events []int `json:"events,omitempty"`
+	Held   int   `json:"held,omitempty"`
 }
 
 // ---------- worlds ----------
@@ -576,6 +582,8 @@ func (sc *scenario) coq(seen [][]int64) string {
 		return fmt.Sprintf("CD (mkD %s %s %s %s)", vx.Nat(sc.NEnt), scr, ord, obs)
 	case "cnt":
 		return fmt.Sprintf("CC (mkC %s %s %s)", scr, ord, obs)
+	case "stkh":
+		return fmt.Sprintf("CKH (mkKH %s %s %s)", scr, vx.ListOf(sc.Events, vx.Nat), obs)
 	}
 	return fmt.Sprintf("CK (mkK %s %s %s)", scr, ord, obs)
 }
@@ -959,7 +967,7 @@ func genCS(r *vx.Rng, cf *vx.CasesFile, st *vx.Stats, nRandom int) {
 
 func main() {
 	if len(os.Args) < 2 {
-		vx.Die("usage: hx-c17 scripted|free [--what sm|dag|cs] [--n N] [--thorough] [--debug] [--same-as ref.v] --seed S --out cases.v --stats stats.json")
+		vx.Die("usage: hx-c17 scripted|free [--what sm|dag|cs|hold] [--n N] [--thorough] [--debug] [--same-as ref.v] --seed S --out cases.v --stats stats.json")
 	}
 	fs := flag.NewFlagSet(os.Args[1], flag.ExitOnError)
 	what := fs.String("what", "sm", "")
@@ -995,6 +1003,8 @@ func main() {
 			genSM(r, cf, st, *n, *thorough)
 		case "dag":
 			genDAG(r, cf, st, *n, *thorough)
+		case "hold":
+			genHold(r, cf, st, *n)
 		default:
 			genCS(r, cf, st, *n)
 		}
